@@ -637,10 +637,29 @@ mod detail {
         ops: &[FlatOp<T>],
         nodes: &[FlatNode<T>],
     ) -> ExprIdxVec {
+        // Regrouping `a o (b o c)` instead of `(a o b) o c` is only invisible if the closest
+        // operator on the left that is not applied earlier anyway is the same operator and
+        // if no unary operator is applied in between.
+        let regrouping_is_invisible = |bin_op_idx: usize| {
+            let op = &ops[bin_op_idx];
+            let left = ops[..bin_op_idx]
+                .iter()
+                .rev()
+                .find(|left| left.bin_op.op.prio <= op.bin_op.op.prio);
+            op.unary_op.len() == 0
+                && match left {
+                    None => true,
+                    Some(left) => {
+                        left.bin_op.op.prio < op.bin_op.op.prio
+                            || (left.bin_op.idx == op.bin_op.idx && left.unary_op.len() == 0)
+                    }
+                }
+        };
         let prio_increase =
             |bin_op_idx: usize| match (&nodes[bin_op_idx].kind, &nodes[bin_op_idx + 1].kind) {
                 (FlatNodeKind::Num(_), FlatNodeKind::Num(_))
-                    if ops[bin_op_idx].bin_op.op.is_commutative =>
+                    if ops[bin_op_idx].bin_op.op.is_commutative
+                        && regrouping_is_invisible(bin_op_idx) =>
                 {
                     let prio_inc = 5;
                     &ops[bin_op_idx].bin_op.op.prio * 10 + prio_inc
